@@ -97,6 +97,11 @@ def _model(r, tier):
             if v != "MapExact":
                 r.violation("model:%s:%s" % (v, name), "Dedup.tla invariant %s violated (%s)" % (v, name))
     r.add("dedup_model", evaluations=len(runs), nontrivial=len(runs))
+    # unbounded counterpart (TLAPS): whatever torn steps (substitution recorded, string not updated) precede it, after check_results every
+    # function is exact -- for any group, any number of functions, rounds and faults
+    from checks import common
+    common.prove(r, "DedupProofs", tier, "after check_results every function is exact whatever timeouts left behind (MapExact)", selftests=[
+        ("DedupProofs.tla", "         /\\ hs' = [i \\in Fun |-> IF Exact(i) THEN hs[i] ELSE h0[i]]", "         /\\ hs' = hs")])
 
 
 def run(tier, replay=None):
